@@ -2,7 +2,7 @@
    refine the frame-ownership specification (`spec_get_enabled` / `spec_get`) through `abs`,
    preserve `LowerInv`, never panic, and the search is complete within the tree (C12). *)
 From Coq Require Import PeanoNat ZArith ZifyN ZifyBool.
-From LLF Require Import Base BitLemmas Row RowProofs Bitfield Lower Spec AbsLemmas BitfieldProofs.
+From LLF Require Import Base BitLemmas Row RowProofs Bitfield Lower Spec LowerFacts AbsLemmas BitfieldProofs.
 Local Open Scope N_scope.
 
 Ltac bsolve :=
@@ -484,13 +484,68 @@ Section Get.
   Qed.
 
   (* ====================================================================== *)
+  (* per-tree accounting of the two allocation steps                         *)
+  (* ====================================================================== *)
+  Lemma tree_range_nat h : (nn (h / THUGE g * THUGE g) <= nn h < nn (h / THUGE g * THUGE g) + thuge_nat g)%nat.
+  Proof.
+    pose proof (proj1 (tree_of_huge h (h / THUGE g)) eq_refl) as Hh.
+    pose proof (THUGE_nat g) as ET. unfold nn. lia.
+  Qed.
+
+  Lemma small_step_tree_free l h e e' rows' :
+    ent l h = Some e -> e <> MARK -> e' <= e -> e <= HF g ->
+    forall t, tree_free g (set_bf (set_ent l h e') h rows') t + delta t (h / THUGE g) (e - e') = tree_free g l t.
+  Proof.
+    intros He Hne Hle HleHF t. pose proof (HF_lt_MARK g WF) as HM.
+    pose proof (tree_range_nat h) as Hh.
+    pose proof (tree_free_change g l (set_bf (set_ent l h e') h rows') (h / THUGE g) (nn h) 1 (e - e')) as TC.
+    unfold delta. rewrite N.mul_1_l in TC. apply TC; [lia|lia|]. clear TC.
+    intros i. unfold set_bf, set_ent; cbn. rewrite efree_at_upd. unfold ind_range.
+    assert (Hlen : (nn h < length (ents l))%nat) by (apply nth_error_Some; unfold ent in He; congruence).
+    destruct (Nat.eqb_spec i (nn h)) as [->|Hn].
+    - destruct (Nat.ltb_spec (nn h) (length (ents l))); [|lia]. cbn [andb].
+      destruct (Nat.leb_spec (nn h) (nn h)); [|lia]. destruct (Nat.ltb_spec (nn h) (nn h + 1)); [|lia].
+      cbn [andb]. unfold efree_at. unfold ent in He. rewrite He. unfold e_free.
+      rewrite (e_huge_false e Hne), (e_huge_false e') by lia. lia.
+    - cbn [andb].
+      destruct (Nat.leb_spec (nn h) i), (Nat.ltb_spec i (nn h + 1)); cbn [andb]; lia.
+  Qed.
+
+  Lemma huge_step_tree_free l h es k :
+    (hord g <= k)%nat -> (k <= tord g)%nat -> h mod pow2 (k - hord g) = 0 ->
+    cas_all (ents l) (nn h) (nn (pow2 (k - hord g))) (HF g) MARK = Some es ->
+    forall t, tree_free g {| frames := frames l; bfs := bfs l; ents := es |} t
+              + delta t (h / THUGE g) (pow2 k) = tree_free g l t.
+  Proof.
+    intros Hk Hkt Hal C t. pose proof (HF_lt_MARK g WF) as HM.
+    set (hn := pow2 (k - hord g)) in *.
+    assert (Epow : pow2 k = hn * HF g) by (rewrite HF_pow2; apply pow2_split, Hk).
+    pose proof (huge_index_fits h k Hk Hkt Hal) as Hfits. fold hn in Hfits.
+    pose proof (tree_range_nat h) as Hh.
+    pose proof (N.div_mod h (THUGE g) (THUGE_nz g)) as Ed.
+    pose proof (THUGE_nat g) as ET.
+    apply cas_all_some in C. destruct C as (_ & Hc & Hn).
+    pose proof (tree_free_change g l {| frames := frames l; bfs := bfs l; ents := es |}
+                  (h / THUGE g) (nn h) (nn hn) (HF g)) as TC.
+    unfold delta. rewrite Epow. replace (N.of_nat (nn hn)) with hn in TC by (unfold nn; lia).
+    apply TC; [lia|unfold nn in *; lia|]. clear TC.
+    intros i. cbn [ents]. unfold efree_at, ind_range. rewrite Hn.
+    destruct ((nn h <=? i)%nat && (i <? nn h + nn hn)%nat) eqn:R.
+    - apply andb_true_iff in R. destruct R as (R1 & R2).
+      apply Nat.leb_le in R1. apply Nat.ltb_lt in R2.
+      rewrite (Hc i (conj R1 R2)). unfold e_free. rewrite e_huge_MARK, (e_huge_false (HF g)) by lia. lia.
+    - lia.
+  Qed.
+
+  (* ====================================================================== *)
   (* lower_get_at                                                            *)
   (* ====================================================================== *)
   Theorem lower_get_at_spec l f k :
     LowerInv g l -> (k <= tord g)%nat -> aligned f k = true -> f + pow2 k <= frames l ->
     (spec_get_enabled (abs g l) f k = true /\
      exists l', lower_get_at g l f k = (Ok tt, l') /\
-                abs g l' = spec_get g (abs g l) f k /\ LowerInv g l') \/
+                abs g l' = spec_get g (abs g l) f k /\ LowerInv g l' /\ frames l' = frames l /\
+                (forall t, tree_free g l' t + delta t (f / TF g) (pow2 k) = tree_free g l t)) \/
     (spec_get_enabled (abs g l) f k = false /\ lower_get_at g l f k = (Err EMemory, l)).
   Proof.
     intros Inv Hkt Hal Hr. unfold aligned in Hal. apply N.eqb_eq in Hal.
@@ -505,7 +560,9 @@ Section Get.
       destruct (N.ltb_spec (THUGE g) ((f / HF g) mod THUGE g + pow2 (k - hord g))) as [C|_]; [lia|].
       destruct (cas_all (ents l) (nn (f / HF g)) (nn (pow2 (k - hord g))) (HF g) MARK) as [es|] eqn:C.
       + destruct (huge_step l _ es k Inv Hk Ehm C) as (En & Ea & Inv'). rewrite <- Ef in En, Ea.
-        left. split; [exact En|]. eexists. split; [reflexivity|]. split; assumption.
+        pose proof (huge_step_tree_free l _ es k Hk Hkt Ehm C) as Ht. rewrite <- div_TF in Ht.
+        left. split; [exact En|]. eexists. split; [reflexivity|].
+        split; [exact Ea|]. split; [exact Inv'|]. split; [reflexivity|exact Ht].
       + right. split; [|reflexivity].
         destruct (spec_get_enabled (abs g l) f k) eqn:En; [exfalso|reflexivity].
         destruct (enabled_huge_block l f k Inv Hk En) as (_ & _ & Hall).
@@ -529,7 +586,10 @@ Section Get.
             as (En & Ea & Inv').
           replace (f / HF g * HF g + f mod HF g) with f in En, Ea
             by (pose proof (N.div_mod f (HF g) (HF_nz g)); lia).
-          left. split; [exact En|]. eexists. split; [reflexivity|]. split; assumption.
+          pose proof (small_step_tree_free l _ e (e - pow2 k) rows' He Hne ltac:(lia) HleHF) as Htf.
+          rewrite <- div_TF in Htf. replace (e - (e - pow2 k)) with (pow2 k) in Htf by lia.
+          left. split; [exact En|]. eexists. split; [reflexivity|].
+          split; [exact Ea|]. split; [exact Inv'|]. split; [reflexivity|exact Htf].
         * destruct (e_inc g (e - pow2 k) (pow2 k)) eqn:Hi;
             [|exfalso; apply (e_inc_undo e (pow2 k) Hle HleHF Hi)].
           right. split; [|reflexivity]. apply Hno. intros En.
@@ -547,7 +607,8 @@ Section Get.
   Definition get_outcome (l : lower) (t : N) (k : nat) (res : res N * lower) : Prop :=
     (exists f l', res = (Ok f, l') /\ f / TF g = t /\
                   spec_get_enabled (abs g l) f k = true /\
-                  abs g l' = spec_get g (abs g l) f k /\ LowerInv g l') \/
+                  abs g l' = spec_get g (abs g l) f k /\ LowerInv g l' /\ frames l' = frames l /\
+                  (forall t', tree_free g l' t' + delta t' (f / TF g) (pow2 k) = tree_free g l t')) \/
     (res = (Err EMemory, l) /\
      forall f, f / TF g = t -> spec_get_enabled (abs g l) f k = false).
 
@@ -574,9 +635,15 @@ Section Get.
       destruct (bf_sfz_some g WF rows start k rows' off Hok ltac:(lia) Hs) as (Hal & Hfit & Hok' & Z & Hbits).
       destruct (small_step l h e rows rows' off k Inv Hk He Hb Hne Hle Hal Hfit Hok' Z Hbits)
         as (En & Ea & Inv').
-      eexists. eexists. split; [reflexivity|]. split; [|split; [exact En|split; [exact Ea|exact Inv']]].
       pose proof (pow2_pos k). destruct (in_huge_divmod h (h * HF g + off)) as (Ed & _); [lia|].
-      rewrite div_TF, Ed. apply tree_of_huge. exact Hh.
+      destruct (LowerInv_huge_ok g l h e rows Inv He Hb) as (_ & _ & Hcnt & _).
+      destruct (Hcnt Hne) as (_ & HleHF).
+      pose proof (small_step_tree_free l h e (e - pow2 k) rows' He Hne ltac:(lia) HleHF) as Htf.
+      replace (e - (e - pow2 k)) with (pow2 k) in Htf by lia.
+      eexists. eexists. split; [reflexivity|].
+      split; [|split; [exact En|split; [exact Ea|split; [exact Inv'|split; [reflexivity|]]]]].
+      + rewrite div_TF, Ed. apply tree_of_huge. exact Hh.
+      + rewrite div_TF, Ed. exact Htf.
   Qed.
 
   Lemma lower_get_huge l start k :
@@ -608,9 +675,16 @@ Section Get.
       set (h := f / HF g) in *.
       pose proof (aligned_mul h hn ltac:(lia) Ehm) as Eh.
       assert (Ets : ts = t * Q * hn) by (subst ts; rewrite EQ; lia).
-      set (m := h / hn - t * Q).
-      assert (Em : h = ts + m * hn) by (subst m; nia).
-      assert (Hm : m < Q) by nia.
+      set (q := h / hn) in *.
+      assert (Hq1 : t * Q <= q).
+      { apply (N.mul_le_mono_pos_r _ _ hn Hhn). clear - Ets Eh Hf. lia. }
+      assert (Hq2 : q < t * Q + Q).
+      { apply (N.mul_lt_mono_pos_r hn _ _ Hhn). rewrite N.mul_add_distr_r. clear - Ets Eh Hf EQ. lia. }
+      set (m := q - t * Q).
+      assert (Em : h = ts + m * hn).
+      { subst m. rewrite N.mul_sub_distr_r. clear - Ets Eh Hq1 Hhn.
+        assert (t * Q * hn <= q * hn) by (apply N.mul_le_mono_r; exact Hq1). lia. }
+      assert (Hm : m < Q) by (subst m; clear - Hq1 Hq2; lia).
       destruct (rot_surj Q c m Hm) as (j & Hj & Ej).
       specialize (Hall j). unfold nn in Hall. rewrite N2Nat.id in Hall.
       rewrite Eidx, (N.add_comm c j), Ej, <- Em in Hall.
@@ -623,9 +697,14 @@ Section Get.
       assert (Ehm : h mod hn = 0).
       { subst h. rewrite Ets, <- N.mul_add_distr_r. apply N.mod_mul. lia. }
       destruct (huge_step l h es k Inv Hk Ehm C) as (En & Ea & Inv').
-      eexists. eexists. split; [reflexivity|]. split; [|split; [exact En|split; [exact Ea|exact Inv']]].
+      pose proof (huge_step_tree_free l h es k Hk Hkt Ehm C) as Htf.
+      eexists. eexists. split; [reflexivity|].
+      split; [|split; [exact En|split; [exact Ea|split; [exact Inv'|split; [reflexivity|]]]]];
+        [|rewrite div_TF, N.div_mul by apply HF_nz; exact Htf].
       rewrite div_TF, N.div_mul by apply HF_nz. apply tree_of_huge. fold ts.
-      pose proof (N.mod_lt (c + k') Q ltac:(lia)). subst h. nia.
+      pose proof (N.mod_lt (c + k') Q ltac:(lia)) as HX.
+      assert ((c + k') mod Q * hn < Q * hn) by (apply N.mul_lt_mono_pos_r; assumption).
+      subst h ts. rewrite EQ. set (X := (c + k') mod Q) in *. clearbody X. clear - H. clearbody hn Q. lia.
   Qed.
 
   Theorem lower_get_spec l start k :
@@ -665,7 +744,8 @@ Section Get.
     f / TF g = (start * 64) / TF g /\
     spec_get_enabled (abs g l) f k = true /\
     abs g l' = spec_get g (abs g l) f k /\
-    LowerInv g l'.
+    LowerInv g l' /\ frames l' = frames l /\
+    (forall t, tree_free g l' t + delta t (f / TF g) (pow2 k) = tree_free g l t).
   Proof.
     intros Inv Hkt Ht H.
     destruct (lower_get_spec l start k Inv Hkt Ht) as [(f0 & l0 & E & R)|(E & _)]; rewrite E in H.
@@ -706,11 +786,13 @@ Section Get.
   Theorem lower_get_at_ok l f k u l' :
     LowerInv g l -> (k <= tord g)%nat -> aligned f k = true -> f + pow2 k <= frames l ->
     lower_get_at g l f k = (Ok u, l') ->
-    spec_get_enabled (abs g l) f k = true /\ abs g l' = spec_get g (abs g l) f k /\ LowerInv g l'.
+    spec_get_enabled (abs g l) f k = true /\ abs g l' = spec_get g (abs g l) f k /\ LowerInv g l' /\
+    frames l' = frames l /\
+    (forall t, tree_free g l' t + delta t (f / TF g) (pow2 k) = tree_free g l t).
   Proof.
     intros Inv Hkt Hal Hr H.
     destruct (lower_get_at_spec l f k Inv Hkt Hal Hr) as [(En & l0 & E & R)|(_ & E)]; rewrite E in H.
-    - injection H as <-. split; [exact En|exact R].
+    - destruct u. injection H as <-. split; [exact En|exact R].
     - discriminate.
   Qed.
 
@@ -750,7 +832,8 @@ Section Get.
     match frame with Some f0 => f = f0 | None => f / TF g = (start * 64) / TF g end /\
     spec_get_enabled (abs g l) f k = true /\
     abs g l' = spec_get g (abs g l) f k /\
-    LowerInv g l'.
+    LowerInv g l' /\ frames l' = frames l /\
+    (forall t, tree_free g l' t + delta t (f / TF g) (pow2 k) = tree_free g l t).
   Proof.
     intros Inv Hkt Hpre H. destruct frame as [f0|]; cbn [lower_get_opt get_opt_pre] in *.
     - destruct Hpre as (Hal & Hr).
@@ -777,3 +860,78 @@ Section Get.
     - apply lower_get_err; assumption.
   Qed.
 End Get.
+
+(* ====================================================================== *)
+(* the hypotheses are satisfiable: a non-trivial state, by computation     *)
+(* ====================================================================== *)
+Module Examples.
+  Definition g9 : geom := {| hord := 9; tlog := 2 |}.
+  Lemma wf9 : wf_geom g9.
+  Proof. unfold wf_geom; cbn; lia. Qed.
+
+  (* 5000 frames: two full trees and a partial one (4096..4999, its last huge frame cut at 392 frames) *)
+  Definition l0 : lower := free_all g9 5000.
+  Definition l1 : lower := snd (lower_get g9 l0 0 0).              (* frame 0 *)
+  Definition l2 : lower := snd (lower_get g9 l1 17 3).             (* 8 frames, hint row 17 (huge frame 2) *)
+  Definition l3 : lower := snd (lower_get_at g9 l2 2048 10).       (* two huge frames of tree 1 *)
+  Definition l4 : lower := snd (lower_get_at g9 l3 4608 7).        (* 128 frames in the cut huge frame *)
+  Definition l5 : lower := snd (lower_get g9 l4 64 9).             (* a huge frame in tree 2 (row 64 = frame 4096) *)
+
+  Example ex_results :
+    (fst (lower_get g9 l0 0 0), fst (lower_get g9 l1 17 3), fst (lower_get_at g9 l2 2048 10),
+     fst (lower_get_at g9 l3 4608 7), fst (lower_get g9 l4 64 9))
+    = (Ok 0, Ok 1024, Ok tt, Ok tt, Ok 4096).
+  Proof. vm_compute. reflexivity. Qed.
+
+  Example ex_inv : lower_invb g9 l5 = true.
+  Proof. vm_compute. reflexivity. Qed.
+  Lemma inv5 : LowerInv g9 l5.
+  Proof. apply lower_invb_sound, ex_inv. Qed.
+
+  (* lower_get: preconditions hold and both outcomes occur on l5 *)
+  Example ex_get_pre : (3 <= tord g9)%nat /\ (20 * 64) / TF g9 < ntab g9 (frames l5).
+  Proof. vm_compute. split; [lia|reflexivity]. Qed.
+  Example ex_get_ok : fst (lower_get g9 l5 20 3) = Ok 1032.
+  Proof. vm_compute. reflexivity. Qed.
+  Example ex_get_ok_spec :
+    spec_get_enabled (abs g9 l5) 1032 3 = true /\
+    abs g9 (snd (lower_get g9 l5 20 3)) = spec_get g9 (abs g9 l5) 1032 3.
+  Proof.
+    destruct (lower_get g9 l5 20 3) as [r l'] eqn:E.
+    assert (Er : r = Ok 1032) by (change r with (fst (r, l')); rewrite <- E; apply ex_get_ok). subst r.
+    destruct (lower_get_ok g9 wf9 l5 20 3 1032 l' inv5 ltac:(cbn; lia) (proj2 ex_get_pre) E)
+      as (_ & En & Ea & _). split; assumption.
+  Qed.
+  (* tree 0 has no free block of order 11 (frame 0 is allocated), tree 2 none of order 10 *)
+  Example ex_get_err : lower_get g9 l5 0 11 = (Err EMemory, l5) /\ lower_get g9 l5 64 10 = (Err EMemory, l5).
+  Proof. vm_compute. split; reflexivity. Qed.
+  Example ex_get_err_spec : forall f, f / TF g9 = 0 -> spec_get_enabled (abs g9 l5) f 11 = false.
+  Proof.
+    destruct (lower_get_err g9 wf9 l5 0 11 EMemory l5 inv5 ltac:(cbn; lia) ltac:(vm_compute; reflexivity)
+                (proj1 ex_get_err)) as (_ & _ & H). exact H.
+  Qed.
+
+  (* lower_get_at: preconditions, Ok and Err *)
+  Example ex_get_at_pre : aligned 3072 9 = true /\ 3072 + pow2 9 <= frames l5 /\
+                          aligned 2048 9 = true /\ 2048 + pow2 9 <= frames l5.
+  Proof. vm_compute. repeat split; discriminate. Qed.
+  Example ex_get_at_ok : fst (lower_get_at g9 l5 3072 9) = Ok tt /\
+                         spec_get_enabled (abs g9 l5) 3072 9 = true.
+  Proof. vm_compute. split; reflexivity. Qed.
+  Example ex_get_at_err : lower_get_at g9 l5 2048 9 = (Err EMemory, l5) /\
+                          spec_get_enabled (abs g9 l5) 2048 9 = false.
+  Proof. vm_compute. split; reflexivity. Qed.
+  Example ex_get_at_iff :
+    (exists l', lower_get_at g9 l5 3072 9 = (Ok tt, l')) <-> spec_get_enabled (abs g9 l5) 3072 9 = true.
+  Proof.
+    apply (lower_get_at_ok_iff g9 wf9 l5 3072 9 inv5 ltac:(cbn; lia)).
+    - apply ex_get_at_pre.
+    - apply ex_get_at_pre.
+  Qed.
+
+  (* lower_get_opt *)
+  Example ex_get_opt : fst (lower_get_opt g9 l5 20 0 (Some 1)) = Ok 1 /\
+                       fst (lower_get_opt g9 l5 20 0 (Some 0)) = Err EMemory /\
+                       fst (lower_get_opt g9 l5 20 0 None) = Ok 1040.
+  Proof. vm_compute. repeat split; reflexivity. Qed.
+End Examples.
